@@ -914,3 +914,64 @@ func verifKeyedMember(member jsonObject, old, new JsonNode) int {
 	}
 	return 0
 }
+
+// verifKeyedMembers (C08): a hunk addressed through a keyed set member ({k1:v1,k2:v2},"v") changes
+// exactly the member that carries all of those key values, wherever it stands in the target, and
+// fails when there is none. Result: 0 as specified (or outside the oracle: more than one member
+// matches); 1 no member matches but the patch succeeds; 2 the addressed member exists but the patch
+// fails; 3 the result differs from "that member's v replaced, every other member untouched".
+func verifKeyedMembers(target jsonArray, pathKeys jsonObject, newV JsonNode) int {
+	addressed := -1
+	for i, m := range target {
+		o, ok := m.(jsonObject)
+		if !ok {
+			continue
+		}
+		all := true
+		for k, want := range pathKeys {
+			got, has := o[k]
+			if !has || !specEq(got, want, nil) {
+				all = false
+			}
+		}
+		if all {
+			if addressed >= 0 {
+				return 0
+			}
+			addressed = i
+		}
+	}
+	e := DiffElement{Path: Path{PathSetKeys(verifCloneNode(pathKeys).(jsonObject)), PathKey("v")}, Add: nodeList(newV)}
+	if addressed >= 0 {
+		e.Remove = nodeList(specChild(target[addressed].(jsonObject), "v"))
+	}
+	r, err := verifCloneNode(target).Patch(Diff{e})
+	if addressed < 0 {
+		if err == nil {
+			return 1
+		}
+		return 0
+	}
+	if err != nil {
+		return 2
+	}
+	switch r.(type) {
+	case jsonArray, jsonList, jsonSet, jsonMultiset:
+	default:
+		return 3
+	}
+	got := specElems(r)
+	if len(got) != len(target) {
+		return 3
+	}
+	for i := range target {
+		want := verifCloneNode(target[i])
+		if i == addressed {
+			want.(jsonObject)["v"] = newV
+		}
+		if !specEq(got[i], want, nil) {
+			return 3
+		}
+	}
+	return 0
+}
